@@ -18,13 +18,13 @@ for x in a b; do
   echo "$id verified=$okv violated=$nv undecided=$nu"; echo "   $v" | cut -c1-200; echo "$first" | sed 's/^/   /'
   if [ $okv -eq 1 ]; then
     mkdir -p /verif/seeded/$id; cp $d/patch.diff $d/demo_test.go /verif/seeded/$id/; [ -f $d/notes.md ] && cp $d/notes.md /verif/seeded/$id/
-    python3 - "$id" "C$nn" "$nv" "$nu" <<'PY'
+    python3 - "$id" "C$nn" "$nv" "$nu" "${ROUND:-3}" <<'PY'
 import json,sys,re
-id,prop,nv,nu=sys.argv[1],sys.argv[2],int(sys.argv[3]),int(sys.argv[4])
+id,prop,nv,nu,rnd=sys.argv[1],sys.argv[2],int(sys.argv[3]),int(sys.argv[4]),int(sys.argv[5])
 notes=open('/verif/seeded/%s/notes.md'%id).read() if True else ''
-m={"id":id,"round":3,"breaks_property":prop,
+m={"id":id,"round":rnd,"breaks_property":prop,
    "needs_to_manifest":"see notes.md",
-   "author":"independent sub-agent (round 3 of seeding, after the engine rebuild: asked for plausible maintainer changes that avoid the obvious guard), given only the property text and a scratch worktree of /repo",
+   "author":"independent sub-agent (round %d of seeding: asked for plausible maintainer changes that avoid the obvious guard)" % rnd + ", given only the property text and a scratch worktree of /repo",
    "confirmed_by_me":{"cmd":"tools/verify_seed.sh <scratch worktree> <seed dir>","result":"build=ok vet=ok existing tests pass with the change; demo fails with the change; demo passes without it"},
    "reported_as":{"violated":nv,"undecided":nu}}
 json.dump(m,open('/verif/seeded/%s/meta.json'%id,'w'),indent=1)
